@@ -230,3 +230,116 @@ Section Steps.
   Lemma nowait_single_dels l s : s <> Wait -> nowait s (map (fun kr : N * N => ResUpd [UDel (fst kr)]) l) = Some s.
   Proof. intros Hs. induction l as [|x l IH]; simpl; [reflexivity|]. destruct s; auto. congruence. Qed.
 End Steps.
+
+(* ---------- "tidy": updates of the right kind, maps without duplicate keys ---------- *)
+From Coq Require Import Permutation.
+
+Fixpoint fits (V : vmap) (us : list upd) : Prop :=
+  match us with [] => True | u :: t => upd_fits V u = true /\ fits (capply V u) t end.
+Lemma fits_app a : forall V b, fits V (a ++ b) <-> fits V a /\ fits (cfold V a) b.
+Proof.
+  induction a as [|u a IH]; intros V b; cbn; [tauto|]. rewrite IH. unfold cfold. cbn. tauto.
+Qed.
+Lemma rvl_none k V : rvl k V = None <-> lookup k (V : vmap) = None.
+Proof. unfold rvl. destruct (lookup k V); cbn; split; congruence. Qed.
+
+Section MapsNoDup.
+  Context {A : Type}.
+  Implicit Types m : list (N * A).
+  Lemma remove_keys_in k k' m : In k (map fst (remove k' m)) <-> In k (map fst m) /\ k <> k'.
+  Proof.
+    rewrite <- !lookup_in, lookup_remove. destruct (N.eqb k k') eqn:E.
+    - apply N.eqb_eq in E. split; [congruence|tauto].
+    - apply N.eqb_neq in E. tauto.
+  Qed.
+  Lemma nodup_remove k m : NoDup (map fst m) -> NoDup (map fst (remove k m)).
+  Proof.
+    induction m as [|[a x] m IH]; cbn; [auto|]. intros H. inversion H; subst.
+    unfold remove in *. cbn. destruct (N.eqb k a); cbn; auto. constructor; auto.
+    intros Hi. apply H2. change (filter _ m) with (remove k m) in Hi. apply remove_keys_in in Hi. tauto.
+  Qed.
+  Lemma nodup_upsert k (x : A) m : NoDup (map fst m) -> NoDup (map fst (upsert k x m)).
+  Proof.
+    intros H. unfold upsert. cbn. constructor; [|apply nodup_remove; exact H].
+    intros Hi. apply remove_keys_in in Hi. tauto.
+  Qed.
+End MapsNoDup.
+
+Lemma handle_one_tidy rs old V x rs' old' o :
+  handle_one rs old x = (rs', old', o) -> I1 rs old V -> I2 rs old ->
+  NoDup (map fst rs) -> NoDup (map fst old) ->
+  fits V (upds_of o) /\ NoDup (map fst rs') /\ NoDup (map fst old').
+Proof.
+  destruct x as [[k r] v]. unfold handle_one, mark_valid, I1, I2. intros H H1 H2 N1 N2.
+  pose proof (H1 k) as Hk. pose proof (rvl_none k V) as Hn. unfold upd_fits.
+  destruct (lookup k old) as [r0|] eqn:Eo.
+  - assert (Er : lookup k rs = None).
+    { destruct (lookup k rs) eqn:E; [|reflexivity]. rewrite H2 in Eo; congruence. }
+    rewrite Er in Hk. rewrite lookup_upsert, N.eqb_refl in H.
+    assert (Hv : lookup k V <> None) by (intros Hq; apply Hn in Hq; congruence).
+    destruct v as [v|]; [destruct (N.eqb r0 r)|]; inversion H; subst; clear H; cbn;
+      (split; [|split]); auto using nodup_upsert, nodup_remove;
+      destruct (lookup k V); try congruence; auto.
+  - destruct v as [v|].
+    + destruct (lookup k rs) as [r0|] eqn:Er.
+      * assert (Hv : lookup k V <> None) by (intros Hq; apply Hn in Hq; congruence).
+        destruct (N.eqb r0 r); inversion H; subst; clear H; cbn; (split; [|split]); auto using nodup_upsert, nodup_remove;
+          destruct (lookup k V); try congruence; auto.
+      * assert (Hv : lookup k V = None) by (apply Hn; exact Hk).
+        inversion H; subst; clear H; cbn; (split; [|split]); auto using nodup_upsert, nodup_remove. rewrite Hv. auto.
+    + destruct (lookup k rs) as [r0|] eqn:Er; inversion H; subst; clear H; cbn; (split; [|split]); auto using nodup_upsert, nodup_remove.
+      assert (Hv : lookup k V <> None) by (intros Hq; apply Hn in Hq; congruence).
+      destruct (lookup k V); try congruence; auto.
+Qed.
+
+Lemma handle_many_tidy xs : forall rs old V S rs' old' o,
+  handle_many rs old xs = (rs', old', o) -> I1 rs old V -> I2 rs old -> I3 rs S ->
+  NoDup (map fst rs) -> NoDup (map fst old) ->
+  fits V (upds_of o) /\ NoDup (map fst rs') /\ NoDup (map fst old').
+Proof.
+  induction xs as [|x xs IH]; intros rs old V S rs' old' o H H1 H2 H3 N1 N2; simpl in H.
+  - inversion H; subst. cbn. auto.
+  - destruct (handle_one rs old x) as [[rs1 old1] o1] eqn:E1.
+    destruct (handle_many rs1 old1 xs) as [[rs2 old2] o2] eqn:E2. inversion H; subst; clear H.
+    destruct (handle_one_inv _ _ _ _ _ _ _ _ E1 H1 H2 H3) as (A1 & A2 & A3).
+    destruct (handle_one_tidy _ _ _ _ _ _ _ E1 H1 H2 N1 N2) as (T1 & T2 & T3).
+    destruct (IH _ _ _ _ _ _ _ E2 A1 A2 A3 T2 T3) as (U1 & U2 & U3).
+    rewrite upds_of_app, fits_app. auto.
+Qed.
+
+Lemma handle_wl_tidy g c old k r v c' old' o V S :
+  handle_wl g c old k r v = (c', old', o) -> I1 (res c) old V -> I2 (res c) old -> I3 (res c) S ->
+  NoDup (map fst (res c)) -> NoDup (map fst old) ->
+  fits V (upds_of o) /\ NoDup (map fst (res c')) /\ NoDup (map fst old').
+Proof.
+  unfold handle_wl. intros H H1 H2 H3 N1 N2. destruct (convert (cv g) k r v) as [kvs e].
+  destruct (handle_many (res c) old kvs) as [[rs old1] o1] eqn:E. inversion H; subst; clear H. cbn.
+  destruct (handle_many_tidy _ _ _ _ _ _ _ _ E H1 H2 H3 N1 N2) as (T1 & T2 & T3).
+  rewrite upds_of_app. destruct e; cbn; rewrite app_nil_r; auto.
+Qed.
+
+Lemma handle_items_tidy g items : forall c old c' old' o V S,
+  handle_items g c old items = (c', old', o) -> I1 (res c) old V -> I2 (res c) old -> I3 (res c) S ->
+  NoDup (map fst (res c)) -> NoDup (map fst old) ->
+  fits V (upds_of o) /\ NoDup (map fst (res c')) /\ NoDup (map fst old').
+Proof.
+  induction items as [|i items IH]; intros c old c' old' o V S H H1 H2 H3 N1 N2; simpl in H.
+  - inversion H; subst. cbn. auto.
+  - destruct (handle_wl g c old (ikey i) (irev i) (Some (ival i))) as [[c1 old1] o1] eqn:E1.
+    destruct (handle_items g c1 old1 items) as [[c2 old2] o2] eqn:E2. inversion H; subst; clear H.
+    destruct (handle_wl_spec _ _ _ _ _ _ _ _ _ _ _ E1 H1 H2 H3) as (A1 & A2 & A3 & _ & _).
+    destruct (handle_wl_tidy _ _ _ _ _ _ _ _ _ _ _ E1 H1 H2 H3 N1 N2) as (T1 & T2 & T3).
+    destruct (IH _ _ _ _ _ _ _ E2 A1 A2 A3 T2 T3) as (U1 & U2 & U3).
+    rewrite upds_of_app, fits_app. auto.
+Qed.
+
+Lemma fits_dels (l : list (N * N)) : forall V,
+  NoDup (map fst l) -> (forall k, In k (map fst l) -> rvl k V <> None) ->
+  fits V (map (fun kr : N * N => UDel (fst kr)) l).
+Proof.
+  induction l as [|[k r] l IH]; intros V Hn Hp; cbn; [exact I|]. inversion Hn; subst. split.
+  - specialize (Hp k (or_introl eq_refl)). destruct (lookup k V) eqn:E; [reflexivity|]. exfalso. apply Hp. apply rvl_none. exact E.
+  - apply IH; [assumption|]. intros k' Hk'. rewrite rvl_remove. destruct (N.eqb k' k) eqn:E.
+    + apply N.eqb_eq in E. subst. contradiction.
+    + apply Hp. right. exact Hk'.
+Qed.
